@@ -275,7 +275,7 @@ def strat_int(tier):
     nmax = {'quick': 10, 'thorough': 24}[tier]
     ax = U.axis_len(nmax)
     return st.fixed_dictionaries({'shape': st.tuples(ax, ax).map(list), 'wvl': st.sampled_from([0.5, 0.6328, 1.55]), 'opd': st.sampled_from([1.0, 30.0, 250.0]),
-                                  'chain': st.sampled_from(['intensity', 'phase', 'phase-through-dft']), 'nmodes': st.integers(1, 6), 'layout': U.layouts, 'seed': U.seeds})
+                                  'chain': st.sampled_from(['intensity', 'phase', 'phase-through-dft']), 'nmodes': st.integers(1, 6), 'layout': U.layouts, 'seed': U.seeds, 'bar_label': st.sampled_from(['same', 'same', 'placeholder', 'band-centre'])})
 
 
 def check_int(case, ctx):
@@ -307,7 +307,10 @@ def check_int(case, ctx):
             g = P.Wavefront.from_amp_and_phase(amp, p, lam, 0.1).data
             return float(np.sum(w * np.abs(g - t) ** 2))
         wf = ctx.call(P.Wavefront.from_amp_and_phase, amp, phs, lam, 0.1)
-        gbar = P.Wavefront(2 * w * (wf.data - t), lam, 0.1)
+        # the container of the upstream gradient is metadata only: its wavelength / spacing labels say nothing about the forward wavefront
+        lam_bar = {'same': lam, 'placeholder': 1.0, 'band-centre': lam * 1.0625}[case.get('bar_label', 'same')]
+        ctx.label('gradient-container-wavelength:' + case.get('bar_label', 'same'))
+        gbar = P.Wavefront(2 * w * (wf.data - t), lam_bar, 0.1)
         pbar = ctx.call(wf.from_amp_and_phase_backprop_phase, gbar)
         directional_check(ctx, cost, phs, pbar, v, 'from_amp_and_phase_backprop_phase', 'c=sum w|A exp(ik phi) - t|^2 %s' % (shape,))
     else:
@@ -320,7 +323,9 @@ def check_int(case, ctx):
         wf = ctx.call(P.Wavefront.from_amp_and_phase, amp, phs, lam, 0.1)
         F = P.Wavefront(ctx.call(mdft.dft2, wf.data, Q, out), lam, 1.0, space='psf')
         Fbar = ctx.call(F.intensity_backprop, wo)
-        gbar = P.Wavefront(ctx.call(mdft.dft2_backprop, Fbar.data, Q, shape), lam, 0.1)
+        lam_bar = {'same': lam, 'placeholder': 1.0, 'band-centre': lam * 1.0625}[case.get('bar_label', 'same')]
+        ctx.label('gradient-container-wavelength:' + case.get('bar_label', 'same'))
+        gbar = P.Wavefront(ctx.call(mdft.dft2_backprop, Fbar.data, Q, shape), lam_bar, 0.1)
         pbar = ctx.call(wf.from_amp_and_phase_backprop_phase, gbar)
         directional_check(ctx, cost, phs, pbar, v, 'phase-retrieval-chain', 'c=sum w|DFT(A exp(ik phi))|^2 %s' % (shape,))
     # modal sums
@@ -570,7 +575,7 @@ def strat_dm(tier):
         'Nact': st.integers(2, 7), 'sep': st.integers(2, 5),
         'dNout': st.sampled_from([0, 0, 8, -8, 7, -7, 16, 1, -1]),
         'shift': st.one_of(st.just([0, 0]), st.tuples(U.nice_float(-3, 3), U.nice_float(-3, 3)).map(lambda t: [round(t[0], 2), round(t[1], 2)])),
-        'upsample': st.sampled_from([1, 1, 1, 0.5, 2, 1.5, 0.7, 0.9, 1.26, 1.35]), 'wfe': st.booleans(), 'width': st.sampled_from([1.0, 1.7, 2.5]),
+        'upsample': st.sampled_from([1, 1, 1, 0.5, 2, 1.5, 0.7, 0.9, 1.26, 1.35, 1.006, 1.02, 0.999, 0.99, 1.0]), 'wfe': st.booleans(), 'width': st.sampled_from([1.0, 1.7, 2.5]),
         'layout': U.layouts, 'seed': U.seeds,
         # rectangular geometries: influence-function array wider than tall (extra columns), output size per axis ("Nout: int or tuple of int")
         'ncols_extra': st.sampled_from([0, 0, 0, 8, 9, 16]), 'dNout_cols': st.one_of(st.none(), st.none(), st.sampled_from([0, 8, -8, 7, -7, 1, -1])),
